@@ -259,6 +259,10 @@ def _run(tape, clock, scratch, oproxy, osproxy):
     twice = tape.draw(3) == 2          # the same paths are intercepted a second time with other bytes of the same length and the same mtime
     relative = tape.draw(4) == 3       # the service names its files by bare relative names (its working directory is the scratch directory)
     via_link = tape.draw(4) == 3       # the intercepted paths are symbolic links to the files (a blob cache, a "current" link)
+    # a path given by keyword wins over the positional index, whatever the index points at in that call (another argument, nothing)
+    in_index = tape.choice([2, 2, 1, -1, 0]) if by_keyword else 2
+    if in_index != 2:
+        run.probe('keyword_path_with_another_argument_at_the_index')
     os.environ.pop('PLAYBACK_INTERCEPTED_FILE_SIZE_LIMIT', None)
     if limit_mode == 'arg':
         limit_arg = limit_bytes / MB
@@ -320,7 +324,7 @@ def _run(tape, clock, scratch, oproxy, osproxy):
         phase = {'n': 0, 'out_content': out_content}
 
         def build(recorder):
-            in_handler = InputInterceptionFileDataHandler(2, 'file_path', limit_arg)
+            in_handler = InputInterceptionFileDataHandler(in_index, 'file_path', limit_arg)
             out_handler = OutputInterceptionFileDataHandler(0, 'file_path', limit_arg)   # output handlers see the arguments without the instance
             if limit_mode == 'attr':
                 in_handler.intercepted_size_limit = out_handler.intercepted_size_limit = limit_bytes / MB
